@@ -263,9 +263,10 @@ class Expander:
                 rep = rep.replace(k, v)
             body_text, n = re.subn(rx, rep.replace('\\n', '\n'), body_text)
             if n == 0:
-                if optional:
-                    continue
-                raise AnchorLost('%s: local rewrite /%s/ no longer matches' % (label, rx))
+                # the construct the rewrite normalises is not there (any more): nothing to normalise.  If it is still
+                # there in another spelling Verus will reject the file and the unit is UNDECIDED - never a false alarm.
+                self.local_rewrites.append({'fn': label, 'regex': rx, 'replacement': rep, 'count': 0})
+                continue
             self.local_rewrites.append({'fn': label, 'regex': rx, 'replacement': rep, 'count': n})
 
         # rule E3b: `stub-block: <regex>` - the `{...}` block that follows the match is replaced by a call to
@@ -290,6 +291,15 @@ class Expander:
                 raise SystemExit('ghost-before must insert a proof block or assert')
             body_text = body_text[:m.start()] + rep.strip() + '\n' + body_text[m.start():]
             self.local_rewrites.append({'fn': label, 'regex': rx.strip(), 'replacement': '<ghost proof block inserted before>', 'count': 1})
+        for ln in sections.get('ghost-after', []):
+            rx, rep = ln.split(' => ', 1)
+            m = re.search(rx.strip(), body_text)
+            if not m:
+                raise AnchorLost('%s: ghost-after /%s/ no longer matches' % (label, rx.strip()))
+            if not rep.strip().startswith(('proof {', 'assert', 'broadcast use')):
+                raise SystemExit('ghost-after must insert a proof block or assert')
+            body_text = body_text[:m.end()] + '\n' + rep.strip() + '\n' + body_text[m.end():]
+            self.local_rewrites.append({'fn': label, 'regex': rx.strip(), 'replacement': '<ghost proof block inserted after>', 'count': 1})
         # loop invariants
         loop_secs = {int(k.split()[1]): v for k, v in sections.items() if k.startswith('loop ')}
         if loop_secs:
@@ -439,7 +449,7 @@ class Expander:
                         if not m:
                             raise SystemExit('bad directive line: ' + l2)
                         key = m.group(1)
-                        if key in ('replace', 'opt-replace', 'stub-block', 'ghost-before'):
+                        if key in ('replace', 'opt-replace', 'stub-block', 'ghost-before', 'ghost-after'):
                             sections.setdefault(key, []).append(m.group(2))
                             cur = None
                         else:
